@@ -49,7 +49,7 @@ LETTERS = ["T", "R90", "Rg", "S", "Q", "P"]
 POLYS_QUICK = ["quad", "pent", "L"]
 BATCHES = [1, 2, 3, 5, "elem", "mesh", "elem_hint"]
 TOL_EVAL = 1e-9
-TOL_ITER = 1e-6
+TOL_ITER = 1e-9  # (was 1e-6 while the inverse map stopped on an absolute residual: F-C08-inverse-map-unit)
 
 
 # ------------------------------------------------------------------------------------------------
@@ -92,7 +92,7 @@ def _locate_meshes(tier):
         else:
             variants = [("affine", 2, 0), ("general", 2, 0), ("general", 1, 0)]
         for shape, k, diag in variants:
-            for mp in ["identity", "rot", "emb", "mirror"]:
+            for mp in ["identity", "rot", "emb", "mirror"] + (["milli"] if shape == "general" else []):
                 out.append({"kind": "locate", "elemType": et, "k": k, "shape": shape, "diag": diag, "map": mp})
         for poly in (["L"] if tier == "quick" else POLYS_QUICK):
             for mp in ["identity", "emb", "mirror"]:
@@ -108,7 +108,7 @@ def _locate_meshes(tier):
         else:
             variants = [("affine", 1), ("frustum", 1)]
         for shape, k in variants:
-            for mp in ["identity", "rot", "mirror"]:
+            for mp in ["identity", "rot", "mirror"] + (["milli"] if shape == "frustum" else []):
                 out.append({"kind": "locate", "elemType": et, "k": k, "shape": shape, "diag": 0, "map": mp})
         if tier == "thorough":
             for mp in ["identity", "rot"]:
@@ -793,6 +793,9 @@ def _placement(name, d):
     r = rng("c08place", name, d)
     if name == "identity":
         return np.eye(3), np.zeros(3)
+    if name == "milli":
+        # the same body written in another unit of length (millimetre-size cells in metres): nothing may depend on the unit
+        return 1e-3 * np.eye(3), np.zeros(3)
     if name == "rot":
         axis = np.array([0.0, 0.0, 1.0]) if d == 2 else _generic_dir(r, False)
         Q = Z.rot3(axis, np.deg2rad(r.uniform(20, 70)))
@@ -888,6 +891,9 @@ def _run_locate(case):
 
     dofs = field(coord).ravel()  # node-major: value of monomial j at node n is dofs[n * len(monos) + j]
     scale = max(1.0, float(np.abs(field(coord)).max()))
+    if mp == "milli":
+        # every monomial on its own scale (a field of size 1e-3 off by 40 % must not hide behind the constant monomial)
+        scale = np.maximum(np.abs(field(coord)).max(axis=0), 1e-300)
     viols = {}
     ncalls = 0
     nfound = 0
@@ -917,7 +923,7 @@ def _run_locate(case):
             record("evaluate_shape", batch, "any", f"returned shape {got.shape}, expected {want.shape}", 1.0)
             return
         for i in range(len(P)):
-            err = float(np.abs(got[i] - want[i]).max()) / scale
+            err = float((np.abs(got[i] - want[i]) / scale).max())
             if not np.isfinite(err):
                 err = np.inf
             if err > tol:
